@@ -34,9 +34,11 @@ enum CP {
     DropHandleThenJoinNever,
     /// a join future is polled once (pending) and dropped: does the task survive?
     DropPendingJoin,
+    /// the runtime's own task handle is polled again after it has completed (tokio: a panic)
+    RepollTaskHandle,
 }
 
-const ALL: [CP; 10] = [
+const ALL: [CP; 11] = [
     CP::Join,
     CP::JoinTwice,
     CP::DropHandle,
@@ -47,6 +49,7 @@ const ALL: [CP; 10] = [
     CP::SleepOrder,
     CP::DropHandleThenJoinNever,
     CP::DropPendingJoin,
+    CP::RepollTaskHandle,
 ];
 
 fn ms(t: u64) -> Duration {
@@ -71,6 +74,23 @@ async fn run_cp(cp: CP) -> String {
         }
     };
     match cp {
+        CP::RepollTaskHandle => {
+            #[cfg(feature = "rt-tokio")]
+            {
+                // (through the shim's own spawn: the real tokio::spawn when no backend is installed)
+                let mut h = hannibal::verif::tokio_shim::spawn(async { 7u8 });
+                let first = (&mut h).await.is_ok();
+                let again = match std::panic::AssertUnwindSafe(&mut h).catch_unwind().await {
+                    Ok(r) => if r.is_ok() { "ok" } else { "err" },
+                    Err(_) => "panic",
+                };
+                format!("first={first} again={again}")
+            }
+            #[cfg(not(feature = "rt-tokio"))]
+            {
+                "not applicable".to_string()
+            }
+        }
         CP::Join => {
             let mut h = <DefaultSpawner as Spawner<P>>::spawn_actor(body(0));
             format!("join={}", h.join().await.is_some())
